@@ -351,7 +351,8 @@ Theorem authorize_pkce_gate cfg s a :
   o_err (snd (authorize cfg s a)) = "" ->
   exists cl, clients s (az_client a) = Some cl /\ pkce_validate cfg (az_challenge a) (az_method a) cl = None.
 Proof.
-  unfold authorize. destruct (clients s (az_client a)) as [cl|]; [|discriminate].
+  unfold authorize. destruct (cf_par_enforced cfg); [discriminate|].
+  destruct (clients s (az_client a)) as [cl|]; [|discriminate]. unfold authorize_core.
   destruct (negb (scopes_ok cfg cl (az_scopes a))); [discriminate|].
   destruct (negb (aud_ok cfg (cl_aud cl) (az_aud a))); [discriminate|].
   destruct (fresh_rid s) as [rid s1]. destruct (mint s1 KCode rid) as [k s2].
@@ -366,7 +367,8 @@ Theorem authorize_confined cfg s a :
   o_err (snd (authorize cfg s a)) = "" ->
   exists cl, clients s (az_client a) = Some cl /\ scopes_ok cfg cl (az_scopes a) = true /\ aud_ok cfg (cl_aud cl) (az_aud a) = true.
 Proof.
-  unfold authorize. destruct (clients s (az_client a)) as [cl|]; [|discriminate].
+  unfold authorize. destruct (cf_par_enforced cfg); [discriminate|].
+  destruct (clients s (az_client a)) as [cl|]; [|discriminate]. unfold authorize_core.
   destruct (negb (scopes_ok cfg cl (az_scopes a))) eqn:E1; [discriminate|].
   destruct (negb (aud_ok cfg (cl_aud cl) (az_aud a))) eqn:E2; [discriminate|].
   intros _. exists cl. apply negb_false_iff in E1, E2. auto.
@@ -382,7 +384,8 @@ Theorem authorize_stores_challenge cfg s a :
     (~ (az_challenge a = "" /\ az_method a = "") ->
        exists pr, pkce (st s') k = Some pr /\ r_challenge pr = az_challenge a /\ r_method pr = az_method a /\ r_cl pr = cl).
 Proof.
-  unfold authorize. destruct (clients s (az_client a)) as [cl|]; [|discriminate].
+  unfold authorize. destruct (cf_par_enforced cfg); [discriminate|].
+  destruct (clients s (az_client a)) as [cl|]; [|discriminate]. unfold authorize_core.
   destruct (negb (scopes_ok cfg cl (az_scopes a))); [discriminate|].
   destruct (negb (aud_ok cfg (cl_aud cl) (az_aud a))); [discriminate|].
   destruct (fresh_rid s) as [rid s1] eqn:E1. destruct (fresh_rid_spec _ _ _ E1) as [Hrid [_ [Hst1 [_ [_ [_ Hl1]]]]]].
